@@ -630,6 +630,56 @@ fn main() {
         }
     }
 
+    // ------------------------------------------------------------ C07: iterates of a RE-solve are interior too
+    if !replaying {
+        let mut count = 0;
+        // problems mixing a symmetric non-scalar cone with a nonsymmetric one first (their
+        // re-solve goes through unit_initialization of every cone), then the others
+        let mixes = |p: &Prob| {
+            let has_soc = p.cones.iter().any(|c| matches!(c, SecondOrderConeT(_) | PSDTriangleConeT(_)));
+            let has_nonsym = p.cones.iter().any(|c| matches!(c, ExponentialConeT() | PowerConeT(_) | GenPowerConeT(_, _)));
+            (has_soc, has_nonsym)
+        };
+        let mut order: Vec<&(Prob, Cfg)> = probs.iter().filter(|(p, _)| { let (a, b) = mixes(p); a && b }).collect();
+        let rest: Vec<&(Prob, Cfg)> = probs.iter().filter(|(p, _)| { let (a, b) = mixes(p); (a || b) && !(a && b) }).collect();
+        let nmix = order.len().min(if thorough { 120 } else { 35 });
+        order.truncate(nmix);
+        order.extend(rest.into_iter().take(if thorough { 60 } else { 12 }));
+        for (p, cfg) in order.into_iter() {
+            if cfg.time_limit == 0.0 || p.label.contains("scaled by") { continue; }
+            if count >= (if thorough { 180 } else { 47 }) { break; }
+            let p2 = p.clone();
+            let cfg2 = cfg.clone();
+            let second = std::thread::spawn(move || {
+                guarded(|| {
+                    let mut solver = DefaultSolver::new(&p2.P, &p2.q, &p2.A, &p2.b, &p2.cones, { let mut s = cfg2.settings(); s.verbose = false; s });
+                    solver.solve();
+                    trace::start();
+                    solver.solve();
+                    let ev = trace::take();
+                    let removed = clarabel::verif_hooks::presolver_dims(&solver.data).map(|(mf, mr, _)| mf - mr).unwrap_or(0);
+                    (ev, removed)
+                })
+            }).join().ok().flatten();
+            if let Some((events, removed)) = second {
+                count += 1;
+                let mut nsnap = 0;
+                for e in events.iter() {
+                    if let Event::Vars { s, z, tau, kappa, .. } = e {
+                        nsnap += 1;
+                        if nsnap > 12 { break; }
+                        if s.len() == p.b.len() && removed == 0 {
+                            sink.case("interior", json!({"label": p.label, "settings": cfg.json(), "problem": p.to_json(), "resolve": true, "snapshot": nsnap, "tau": tau, "kappa": kappa}),
+                                format!("(c_interior {} {} {} {} {})", cones_coq(&p.cones), cdylist(s), cdylist(z), cdy(*tau), cdy(*kappa)),
+                                &["C07"]);
+                        }
+                    }
+                }
+            }
+        }
+        stats.insert("resolve_traces".into(), json!(count));
+    }
+
     // ------------------------------------------------------------ C20: routing
     let nroute = if thorough { 60 } else { 20 };
     for (p, cfg, long) in longruns.iter().take(nroute) {
